@@ -20,6 +20,9 @@ import traceback
 
 VERIF = os.path.dirname(os.path.dirname(os.path.abspath(__file__)))
 REPO = os.environ.get("WINDPYUTILS_REPO", "/repo")
+# where evidence/ and replays/ are written: /verif itself, except for runs against a scratch copy of the repository (seed
+# triage, mutation sweeps: tools/*.sh, tools/mutate.py), which must not overwrite the evidence of the unchanged tree
+OUT_DIR = os.environ.get("VERIF_OUT_DIR", VERIF)
 LEAN_DIR = os.path.join(VERIF, "lean")
 DRIVER = os.path.join(LEAN_DIR, ".lake", "build", "bin", "driver")
 ALLOWED_AXIOMS = {"propext", "Classical.choice", "Quot.sound"}
@@ -237,13 +240,19 @@ def call_with_alarm(fn, seconds=2.0):
     def handler(signum, frame):
         raise Timeout()
 
+    # nesting: an enclosing watchdog keeps its deadline (the inner one never outlives it, and it is re-armed afterwards)
+    outer_left = signal.getitimer(signal.ITIMER_REAL)[0]
+    t0 = time.time()
     old = signal.signal(signal.SIGALRM, handler)
-    signal.setitimer(signal.ITIMER_REAL, seconds)
+    # repeating: a runner that catches the exception of one operation and goes on is interrupted again and again
+    signal.setitimer(signal.ITIMER_REAL, min(seconds, outer_left) if outer_left > 0 else seconds, 0.25)
     try:
         return fn()
     finally:
         signal.setitimer(signal.ITIMER_REAL, 0)
         signal.signal(signal.SIGALRM, old)
+        if outer_left > 0:
+            signal.setitimer(signal.ITIMER_REAL, max(0.01, outer_left - (time.time() - t0)))
 
 
 def enc_str(s: str) -> str:
@@ -329,7 +338,7 @@ class Finding:
 
 def write_fallback_replay(prop_id, seed, tier, error, where):
     """replay file for the case that the harness itself could no longer observe the implementation (see ./check)"""
-    d = os.path.join(VERIF, "replays")
+    d = os.path.join(OUT_DIR, "replays")
     os.makedirs(d, exist_ok=True)
     path = os.path.join(d, f"{prop_id}-{seed}.json")
     with open(path, "w", encoding="utf-8") as f:
@@ -396,7 +405,7 @@ class Report:
             self.samples.append(case.to_json() if isinstance(case, Case) else case)
 
     def write_replay(self, finding, suffix=""):
-        d = os.path.join(VERIF, "replays")
+        d = os.path.join(OUT_DIR, "replays")
         os.makedirs(d, exist_ok=True)
         path = os.path.join(d, f"{self.prop_id}-{self.seed}{suffix}.json")
         with open(path, "w", encoding="utf-8") as f:
@@ -408,7 +417,7 @@ class Report:
         return os.path.relpath(path, VERIF)
 
     def write_evidence(self, proof: ProofStatus, trusted_base, assumptions, violations, rule, checker_cmd=None):
-        d = os.path.join(VERIF, "evidence")
+        d = os.path.join(OUT_DIR, "evidence")
         os.makedirs(d, exist_ok=True)
         n_thm = len([n for n in proof.theorems if not n.startswith("__")])
         obligations = n_thm + 1  # the theorems + the correspondence obligation
